@@ -149,6 +149,7 @@ pub struct Rewriter<'a> {
     pub rename_methods_on: HashMap<String, HashMap<String, String>>,
     /// crate-local async fns: `f(args).await` is the sequential call `f(args, Tracked(w))`
     pub async_fns: Vec<String>,
+    pub await_methods: Vec<String>,
     /// R15: method name -> kinds ("poll" | "option") for successive occurrences (pre-order)
     pub desugar: HashMap<String, Vec<String>>,
     pub desugar_seen: HashMap<String, usize>,
@@ -498,6 +499,12 @@ impl<'a> VisitMut for Rewriter<'a> {
                 } else {
                     None
                 }
+            }
+            Expr::Await(a) if matches!(&*a.base, Expr::MethodCall(m) if self.await_methods.contains(&m.method.to_string())) => {
+                // R6'': `recv.m(args).await` for a crate-local async METHOD named by the unit: a sequential call of the method
+                let inner = &a.base;
+                self.fired.push("R6-await-local-async-method".into());
+                Some(parse_quote! { #inner })
             }
             Expr::Await(a) if r27_drain_target(&a.base).is_some() => {
                 // R27: `stream::poll_fn(move |cx| RX.poll_recv(cx)).collect::<Vec<T>>().await` - polling the receiver until it
@@ -884,6 +891,7 @@ pub fn apply_all(block: &mut Block, item: &Value, fired: &mut Vec<String>, name:
         drop_takes: item.get("drop_takes").and_then(|x| x.as_bool()).unwrap_or(false),
         drop_fn: item.get("drop_fn").and_then(|x| x.as_str()).unwrap_or("vx_drop_sender_opt").to_string(),
         async_fns: list("async_fns"),
+        await_methods: list("await_methods"),
         user_call_ret: item.get("user_call_ret").and_then(|x| x.as_str()).map(String::from),
         user_call_try: item.get("user_call_try").and_then(|x| x.as_bool()).unwrap_or(false),
         user_call_sync: item.get("user_call_sync").and_then(|x| x.as_bool()).unwrap_or(false),
